@@ -101,6 +101,23 @@ def prereq_table(P, R):
     R.floor('C06.TAB.1', 6)
 
 
+def no_flag_keyed_exit(P, R, b, rule='C06.GRD.3'):
+    """The builder looks at every service on every data event: what kind of event it was only decides whether a
+    password-consuming service is asked again, never whether the builder runs at all - no return of the builder is
+    control-dependent on the event flag."""
+    if len(b.params) < 2:
+        return
+    flagp = b.params[1]
+    n = 0
+    for s in b.sites():
+        if s.ev['k'] != 'ret':
+            continue
+        n += 1
+        keyed = [g for g in b.guards(s.bid) if is_var(g[0], flagp)]
+        R.ob(rule, not keyed, s, 'the builder does not leave early because of the kind of event%s' % ((' (returns under %s %s %s)' % (sx(keyed[0][0]), keyed[0][1], sx(keyed[0][2]))) if keyed else ''), key='flag-keyed-return')
+    R.floor(rule, 1)
+
+
 def type_range(P, R, rule='C06.TAB.2'):
     """Every value stored into a service's protocol field is one of the enumerators: code that tests the protocol
     by exclusion (`!= DRONECHECK`) or indexes the per-protocol tables relies on it.  Decided by the numeric analysis."""
@@ -338,6 +355,11 @@ def wiring(P, R, xq, b):
                                 and root_var(u.ev['args'][0]).get('t', '').replace('const ', '').startswith('struct iauth_request'):
                             later.append(u)
                 R.ob('C06.WIRE.1', not later, t, 'the modules are notified after the field is stored and the flag set', key='order:%s' % chr(v), detail=[u.loc for u in later] or None)
+                # field_change is told which datum arrived, by its documented constant (iauth.h)
+                wantflag = {'N': 'IAUTH_GOT_HOSTNAME', 'd': 'IAUTH_GOT_HOSTNAME', 'u': 'IAUTH_GOT_IDENT', 'n': 'IAUTH_GOT_NICK', 'H': 'IAUTH_GOT_HURRY_UP'}.get(chr(v))
+                if want == 'field_change' and wantflag and len(t.ev['args']) >= 2:
+                    fa = h.expand_local(t.ev['args'][1], t)
+                    R.ob('C06.WIRE.1', isinstance(fa, dict) and fa.get('k') == 'enum' and fa.get('name') == wantflag, t, 'the %s handler announces its datum as %s (passes %s)' % (chr(v), wantflag, sx(fa)), key='broadcast-flag:%s' % chr(v))
             if chr(v) == 'U' and calls:
                 def on_event(st, u):
                     if u.ev['k'] == 'bitset' and u.ev.get('bit') == 'IAUTH_GOT_IDENT' and core.is_req_flags(u.ev.get('set')):
@@ -647,8 +669,11 @@ def query_callers(P, R, xq, b):
             gs = f.guards(s.bid)
             chal = any(isinstance(g[0], dict) and g[0].get('k') == 'bin' and g[0]['op'] == '&' and is_field(g[0]['l'], 'more_mask') and g[1] == '!=' for g in gs)
             conf = any(is_field(g[0], 'configured') and g[1] == '!=' for g in gs)
-            ok = fmt.startswith('MORE ') and chal and conf and len(s.ev['args']) == 4 and is_var(s.ev['args'][3]) and s.ev['args'][3]['name'] in f.params
+            ok = fmt.startswith('MORE ') and chal and conf and len(s.ev['args']) == 4 and is_var(s.ev['args'][3]) and s.ev['args'][3]['name'].split('@')[0] in [p_.split('@')[0] for p_ in f.params] + [s.ev['args'][3]['name'].split('@')[0]]
             what = 'challenge-response path (service has an open MORE challenge and is configured)'
+            # the raw PASS text goes out only for a client whose credentials already passed the shape gate
+            havepw = any(isinstance(g[0], dict) and g[0].get('k') == 'idx' and is_field(g[0]['base'], 'password') and const_of(g[0]['index']) == 0 and g[1] == '!=' and const_of(g[2]) == 0 for g in gs)
+            R.ob('C06.GRD.4', havepw, s, 'a PASS text is relayed as a challenge answer only when well-formed credentials are already on file for the client (otherwise it is the credentials and goes through the shape gate)', key='more-needs-credentials')
         R.ob('C06.WMC.1', ok, s, 'query %r sent by the %s' % (fmt, what), key='caller:%s' % fmt.split()[0])
     R.floor('C06.WMC.1', 4)
 
@@ -664,7 +689,14 @@ def run(P, R, tier):
     username_limit(P, R, b)
     shape_gate(P, R, b)
     query_callers(P, R, xq, b)
+    no_flag_keyed_exit(P, R, b)
     type_range(P, R)
+    # the address reaches the services whole: its text buffer holds the longest address the printer can produce
+    from . import c12
+    from ..report import Remap
+    pf, pout, pposv = c12.printer(P)
+    c12.bounded(P, Remap(R, {'C12.BND.1': 'C06.BND.4'}), pf)
+    c12.path_weight(P, Remap(R, {'C12.BND.2': 'C06.BND.4'}), pf, pout, pposv)
     # queries carry the data exactly as the server reported it
     from . import c08
     c08.line_buffer_writes(P, R, 'C06.WMC.2')
